@@ -68,8 +68,24 @@ var c10GoRoles = map[string]string{
 	"BaseClient.Connect/go1":          "Reader",    // serve loop + exit path (connect.go)
 	"RetryClient.SetClient/go1":       "Task",      // the task goroutine (retryclient.go)
 	"reconnectClient.Connect/go1":     "Reconn",    // the reconnect loop (reconnclient.go)
-	"reconnectClient.Connect/go1/go1": "KeepAlive", // keep-alive goroutine of one connection
 }
+
+// goroutines recognised by what they run rather than by position: the keep-alive goroutine of a
+// connection is the literal that calls KeepAlive(…); every other undeclared goroutine (e.g. the
+// watcher that aborts a handshake on Disconnect) runs as Other. All of these are multi-instance.
+func c10RoleByBody(fl *ast.FuncLit) string {
+	role := ""
+	ast.Inspect(fl.Body, func(n ast.Node) bool {
+		if c, ok := n.(*ast.CallExpr); ok {
+			if id, ok := c.Fun.(*ast.Ident); ok && id.Name == "KeepAlive" {
+				role = "KeepAlive"
+			}
+		}
+		return true
+	})
+	return role
+}
+
 
 // functions whose function-literal arguments run on the task goroutine
 var c10TaskSinks = map[string]bool{"pushTask": true}
@@ -452,10 +468,15 @@ func (w *c10Walker) stmt(s ast.Stmt, h c10Held) (c10Held, bool) {
 			w.expr(a, false, h)
 		}
 		role := c10GoRoles[name]
+		declared := role != ""
+		if fl, ok := s.Call.Fun.(*ast.FuncLit); ok && role == "" {
+			role = c10RoleByBody(fl)
+			declared = role != ""
+		}
 		if role == "" {
 			role = "Other"
 		}
-		w.x.goSeen[name] = true
+		w.x.goSeen[name] = declared
 		if fl, ok := s.Call.Fun.(*ast.FuncLit); ok {
 			w.rootLit(fl, name, role)
 		} else {
@@ -946,14 +967,14 @@ func (w *c10Walker) recordPseudo(sel *ast.SelectorExpr, owner, field string, h c
 func (x *c10Extractor) checkFacts() []string {
 	var bad []string
 	for name := range c10GoRoles {
-		if !x.goSeen[name] {
+		if _, seen := x.goSeen[name]; !seen {
 			bad = append(bad, "declared goroutine "+name+" not found in the source")
 		}
 	}
-	for name := range x.goSeen {
+	for name, declared := range x.goSeen {
 		// an undeclared goroutine is not an error: it runs as role Other (many instances,
 		// concurrent with everything), which can only add alarms
-		if c10GoRoles[name] == "" && !strings.HasPrefix(name, "ServeAsync.Serve/") {
+		if !declared && !strings.HasPrefix(name, "ServeAsync.Serve/") {
 			x.warnings = append(x.warnings, "goroutine "+name+" has no declared role (treated as Other)")
 		}
 	}
